@@ -10,7 +10,7 @@ use super::crash::{live_run, quiet_panics, LiveRun};
 use crate::damage::{all_frames, inplace_damage};
 use crate::gen::Profile;
 use crate::image::{Builder, Image};
-use crate::layout;
+use crate::layout::{self, BLOCK};
 use crate::ops::{payload_hash, short, Op, Outcome, Pid, Policy, Snapshot};
 use crate::runner::{Acc, Ctx, Monitor, Tier};
 use crate::util::{hash_combine, Rng};
@@ -62,6 +62,35 @@ fn crc_valid_altered_frame(orig: &Image, dam: &Image) -> bool {
         }
     }
     false
+}
+
+/// Records of every well-formed AppendRecords entry that can be re-assembled from the
+/// checksum-valid frames of `img` (layout::group_entries is the harness's own reading of the
+/// format: Full, or First Middle* Last; a batch is valid when its record headers and payloads
+/// end exactly at the end of the entry).
+fn reference_records(img: &crate::image::Image) -> std::collections::HashSet<(String, u64, u32, u64)> {
+    let names: Vec<&String> = img.files.keys().collect();
+    let datas: Vec<&[u8]> = names.iter().map(|n| &img.files[*n][..]).collect();
+    let mut frames = Vec::new();
+    for (fi, d) in datas.iter().enumerate() {
+        for f in crate::layout::parse_frames(d) {
+            frames.push((fi, f));
+        }
+    }
+    let mut out = std::collections::HashSet::new();
+    for e in crate::layout::group_entries(&frames, &datas) {
+        if e.etype != 4 {
+            continue;
+        }
+        let Ok(q) = String::from_utf8(e.queue.clone()) else { continue };
+        let mut p = 11 + e.queue.len();
+        for (pos, l) in &e.records {
+            let payload = &e.bytes[p + 12..p + 12 + *l as usize];
+            out.insert((q.clone(), *pos, *l, crate::util::hash_bytes(payload)));
+            p += 12 + *l as usize;
+        }
+    }
+    out
 }
 
 impl Monitor for C08 {
@@ -258,6 +287,75 @@ impl Monitor for C08 {
             }
             if round == 0 {
                 acc.sample(|| json!({"case": case, "history": run.history_json(8), "image": img.describe(), "damage_set": descs, "outcome": if snap == final_state { "ok-nothing-lost" } else { "ok-with-loss" }}));
+            }
+        }
+
+        // ---- block-copy leg: one 32 KiB block overwritten in place with a copy of another block
+        // of the same log (a misdirected or replayed block write).  Every frame of the result
+        // is checksum-valid, so this is the damage that tests what happens ABOVE the frame
+        // layer: entry re-assembly and batch validation.
+        let mut blocks: Vec<(String, usize)> = Vec::new();
+        for (n, d) in &img.files {
+            for b in 0..d.len() / BLOCK {
+                if d[b * BLOCK..(b + 1) * BLOCK].iter().any(|x| *x != 0) {
+                    blocks.push((n.clone(), b));
+                }
+            }
+        }
+        if blocks.len() >= 2 {
+            for round in 0..ctx.tier.pick(40, 100) {
+                let dst = rng.pick(&blocks).clone();
+                let src = rng.pick(&blocks).clone();
+                if dst == src {
+                    continue;
+                }
+                let mut dam = img.clone();
+                let copy: Vec<u8> = dam.files[&src.0][src.1 * BLOCK..(src.1 + 1) * BLOCK].to_vec();
+                dam.files.get_mut(&dst.0).unwrap()[dst.1 * BLOCK..(dst.1 + 1) * BLOCK].copy_from_slice(&copy);
+                if dam == img {
+                    continue;
+                }
+                acc.distinct(hash_combine(hash_combine(case, 0xB10C), hash_combine(round as u64, (dst.1 * 4096 + src.1) as u64)));
+                dam.materialize(&dir);
+                let r = catch_unwind(AssertUnwindSafe(|| mrecordlog::MultiRecordLog::open(&dir).map(|log| Snapshot::take(&log))));
+                acc.eval();
+                acc.count("block_copy_images_opened");
+                let Ok(Ok(Ok(snap))) = r else {
+                    acc.count("block_copy_open_not_ok");
+                    continue;
+                };
+                // what any reader of this format delivers from the damaged image: entries
+                // re-assembled from the (all checksum-valid) frames, batches validated
+                let mut reference: Option<std::collections::HashSet<(String, u64, u32, u64)>> = None;
+                let mut bad: Option<(String, serde_json::Value)> = None;
+                'bq: for (q, qs) in &snap.queues {
+                    for r in &qs.recs {
+                        acc.count("records_checked_against_append_set");
+                        let known = appended.get(q).and_then(|m| m.get(&r.pos)).map(|v| v.contains(&(r.len, r.hash))).unwrap_or(false);
+                        if known {
+                            continue;
+                        }
+                        let refset = reference.get_or_insert_with(|| reference_records(&dam));
+                        if refset.contains(&(q.clone(), r.pos, r.len, r.hash)) {
+                            bad = Some(("frames-of-different-entries-spliced-by-a-block-copy".into(), json!({"queue": short(q), "position": r.pos, "len": r.len})));
+                        } else {
+                            bad = Some(("record-no-reader-of-the-format-would-deliver/after-block-copy".into(), json!({"queue": short(q), "position": r.pos, "len": r.len})));
+                            break 'bq;
+                        }
+                    }
+                }
+                if let Some((class, what)) = bad {
+                    let sig = format!("C08/{}", class);
+                    let known = acc.is_known(&sig);
+                    acc.violation(
+                        sig,
+                        case,
+                        json!({"history": run.history_json(run.ops.len()), "damage": {"kind": "block-copy", "from": {"file": src.0, "block": src.1}, "over": {"file": dst.0, "block": dst.1}}, "image": img.describe(), "foreign_record": what, "recovered": snap.to_json()}),
+                    );
+                    if !known {
+                        return;
+                    }
+                }
             }
         }
     }
